@@ -99,7 +99,7 @@ def _load_element(e, parent, root):
     v = e.find('valid_codes')
     if v is not None:
         n.external = v.get('external')
-        n.codes = [c.text for c in v.findall('code')]
+        n.codes = [(c.text or '').strip() for c in v.findall('code')]      # a code is its text; blanks around it in the map file are layout
     de = root.dataele.get(n.data_ele)
     n.dtype = de['type'] if de else None
     n.min_len = de['min'] if de else None
